@@ -179,6 +179,12 @@ impl Envelope {
             for assertion in envelope.assertions_with_predicate(known_values::SSKR_SHARE) {
                 // The assertion may carry assertions of its own (e.g. salt).
                 let share = assertion.subject().as_object().unwrap().extract_subject::<SSKRShare>()?;
+                // Every share starts with five bytes of metadata (which hold
+                // the identifier); anything shorter is not a share, and
+                // reading its identifier would index past the end.
+                if share.data().len() < 5 {
+                    bail!(EnvelopeError::InvalidShares);
+                }
                 let identifier = share.identifier();
                 result.entry(identifier).and_modify(|shares| shares.push(share.clone())).or_insert(vec![share]);
             }
